@@ -78,3 +78,17 @@ claim("C33", "table check of Vector's dunder bindings and of the operand order o
       "Decides that every arithmetic/comparison/unary dunder of the pytree vector is bound to its own operator with forward "
       "variants applying op(lhs, rhs) and reflected variants op(rhs, lhs). Reductions, norms and smap/lmap==vmap are numerical "
       "and not decided.", TRUST, "DESIGN.md section 4, C33")
+
+claim("C08", "who-may-call scan of the domain constructors; dominance/reaching-definition check of the cache protocol in make(); F-INIT for the hash key attributes",
+      "Decides the identity clause: DomainTuple/MultiDomain objects can only come out of make(), which looks up and stores under "
+      "the same canonical key, constructs only after a failed lookup and returns what it stored; pickling re-creates through the "
+      "factory; every attribute of a domain's hash key is assigned on all constructor paths, never re-assigned and bound to a "
+      "hashable canonical value. Volumes, k-length tables and binning are numerical and not decided.", TRUST, "DESIGN.md section 4, C08")
+
+claim("C12", "typed freeze table for LikelihoodPartial; structural recognition (after let-inlining) of the jvp/vjp sandwich in LikelihoodWithModel; sibling comparison of LikelihoodSum methods; method-set exhaustiveness",
+      "Decides that amending a forward model, adding likelihoods and freezing point estimates preserve the factorisation "
+      "identities structurally: every wrapper method delegates to the same-named method of the wrapped likelihood with tangents "
+      "pushed forward / results pulled back with the conjugated vjp exactly where the types require, frozen positions are "
+      "inserted as positions and as zero tangents, and the base-class defaults encode metric = L after R, R = conj transpose of L, "
+      "L = conj vjp of the transformation. That a concrete metric equals the Fisher information is not decided.", TRUST,
+      "DESIGN.md section 4, C12")
